@@ -14,7 +14,9 @@ for id in "$@"; do
   for r in $reps; do
     [ -f "$r" ] || continue
     if timeout 600 ./check $pid --replay "$r" >/dev/null 2>&1; then
-      mkdir -p corpus/regress/$pid; cp "$r" corpus/regress/$pid/$id.json; kept=$r; break
+      mkdir -p corpus/regress/$pid; cp "$r" corpus/regress/$pid/$id.json
+      # the corpus entry must be quiet on the clean tree when it runs as part of the check
+      if timeout 3000 ./check $pid >/dev/null 2>&1; then kept=$r; break; else rm corpus/regress/$pid/$id.json; fi
     fi
   done
   echo "$id: rc=$rc violations=$(echo "$reps" | wc -w) no-failing-input=$nf kept=${kept:-none}"
